@@ -204,6 +204,14 @@ def wl_refprover(ctx, config):
             o = 2 + bl + 32 + 32 * j
             vcase(ctx, config, sb[:o] + b32(forged[j] + n) + sb[o + 32:], S.in_pts, S.in_obj, S.out_pt, S.out_obj, "refprover:s+n")
         mutate(ctx, config, rng, sb, S, "refprover")
+        # the ring closes although a forged scalar is exactly 0 (any position but the prover's): must be rejected
+        if len(used) >= 2:
+            fz = list(forged)
+            for t in range(len(used)):
+                if t != idx and rng.random() < 0.6: fz[t] = 0
+            if all(fz[t] for t in range(len(used)) if t != idx): fz[(idx + 1) % len(used)] = 0
+            sz = sj.prove(S.in_pts, S.out_pt, used, idx, sec, fz, rng.randrange(1, n))
+            if sz is not None: vcase(ctx, config, sz, S.in_pts, S.in_obj, S.out_pt, S.out_obj, "refprover:forged_scalar_zero")
         # empty selection: canonical string with a zero bitmap
         empty = sj.serialize(nin, bytes(bl), pools.rbytes(rng, 32), [])
         vcase(ctx, config, empty, S.in_pts, S.in_obj, S.out_pt, S.out_obj, "empty_selection")
